@@ -187,7 +187,7 @@ func TestC24(t *testing.T) {
 	p := &prop[c24Case]{
 		ID:   "C24",
 		Rule: "byte-mode rule sets of 1..4 rules (literals, class+, classes over bytes 0x80..0xff written with \\xHH, small random patterns), tokens 1..31, priorities 0..2, compiled by lex.Compile(scanBytes, no backtracking) and packed with shiftdfa.Pack; kept when both accept. Inputs: all strings of length <=4 over the rules' first five symbols plus one byte >=0x80 and one unrelated byte, and 60 random byte strings (1/3 of the bytes >= 0x80). Scanner.Scan must equal Tables.Scan(0, .) as (size, token). Non-trivial: inputs contain bytes >= 0x80 and the DFA has >=4 states or the rules mention such bytes; distinct by rules JSON.",
-		Quick: 3000, Thorough: 60000,
+		Quick: 15000, Thorough: 150000,
 		Gen:   c24Gen,
 		Check: c24Check,
 	}
